@@ -200,11 +200,17 @@ def rule_variants(rep, crate):
 
 def rule_root_retained(rep, crate):
     rid = rep.rule('M-C19e', 'the root survives pruning: in Graph::new every call retain_states(keep, true) is dominated by an unconditional push/insert of graph.root into the work list (or an iter::once(graph.root) chained into its seeds) the keep-set is computed from (the expect("Unreachable state found") of Generator::get_ident and the index expressions of the generator are justified by "every state the generator names is in the graph", which for the root rests on this)', floor=1)
-    fn = crate.fns.get('graph::Graph::new')
-    if not rep.anchor(rid, 'fn Graph::new', fn is not None):
+    g = crate.fns.get('graph::Graph::new')
+    if not rep.anchor(rid, 'fn Graph::new', g is not None):
         return
-    keeps = [(b, t) for b, t in find_calls(fn, r'graph::Graph::retain_states$') if desc(fn, t['args'][2]) == 'const:1']
-    if not rep.anchor(rid, 'retain_states(.., true) in Graph::new', bool(keeps)):
+    # the pruning pass lives in Graph::new or in a private method of Graph it was moved to
+    fn, keeps = g, []
+    for h in [g] + [f for n, f in sorted(crate.fns.items()) if re.match(r'^graph::Graph::[a-z_0-9]+$', n) and f is not g and f.name != 'graph::Graph::retain_states']:
+        ks = [(b, t) for b, t in find_calls(h, r'graph::Graph::retain_states$') if desc(h, t['args'][2]) == 'const:1']
+        if ks:
+            fn, keeps = h, ks
+            break
+    if not rep.anchor(rid, 'retain_states(.., true) in Graph::new or a Graph method', bool(keeps)):
         return
     # graph.root handed, outside any condition that could skip it, to a container or to an iterator source feeding the keep-set
     roots = [(b, t) for b, t in fn.calls() if re.search(r'(Vec::<T, A>::push|HashSet::<T, S>::insert|VecDeque::<T, A>::push_back|BTreeSet::<T, A>::insert|iter::once|Extend<.*>>::extend|::extend_one)$', fn.callee_name(t)) and any(re.search(r'(^|\.)root$', desc(fn, a)) for a in t['args'])]
